@@ -125,6 +125,7 @@ func checkC01(c C01Case) Outcome {
 			side = "accepted by the plain reading but not by the generated regex"
 		}
 		out.Detail["witness"] = cmp.Witness
+		predUndecided = false
 		if openFinding("D17") && inD17Class(ref, r.Stdout) {
 			out.ExcludedBy = "D17"
 			return out
@@ -135,6 +136,10 @@ func checkC01(c C01Case) Outcome {
 		}
 		if openFinding("D20") && !hasLabel(c.Lab, "flag-i") && inD20Class(ref, r.Stdout) {
 			out.ExcludedBy = "D20"
+			return out
+		}
+		if predUndecided {
+			out.Inconclusive = "known-finding class predicate hit the state cap"
 			return out
 		}
 		out.Violation = fmt.Sprintf("language differs: %q is %s", cmp.Witness, side)
